@@ -32,6 +32,7 @@ func init() {
 			{ID: "C15-R9", Title: "container equality tests key presence with a two-value lookup", Floor: 2, Run: equalityChecksPresence},
 			{ID: "C15-R10", Title: "Compare/Equals convert floats to integers only under a range test", Floor: 5, Run: floatToIntGuarded},
 			{ID: "C15-R11", Title: "Compare/Equals/HashKey push no operand through a lossy conversion", Floor: 20, Run: lossyConversionsInComparisons},
+			{ID: "C15-R12", Title: "times are compared as instants (Equal/Before/After), never with ==", Floor: 1, Run: timesComparedAsInstants},
 		},
 	})
 }
